@@ -59,6 +59,14 @@ func (s *State) get(name string) string {
 				t = fmt.Sprintf("(ite %s %s %s)", s.mconds[i], s.mstates[i].get(name), t)
 			}
 			t = s.e.define(name, srt, t)
+			// let congruence closure see through the merge: under each branch condition the merged
+			// heap is that branch's heap (quantifier instantiation does not look inside ite)
+			for i := 0; i < len(s.mstates)-1; i++ {
+				s.e.line(fmt.Sprintf("(assert (=> %s (= %s %s)))", s.mconds[i], t, s.mstates[i].get(name)))
+			}
+			if len(s.mstates) == 2 {
+				s.e.line(fmt.Sprintf("(assert (=> (not %s) (= %s %s)))", s.mconds[0], t, s.mstates[1].get(name)))
+			}
 		}
 	case s.parent != nil && s.keep != nil && s.keep(name):
 		t = s.parent.get(name)
@@ -260,6 +268,22 @@ func (e *Emitter) strConst(s string) string {
 			}
 		}
 		// distinctness from other literals of the same length is implied by content when short
+	}
+	return name
+}
+
+// constArray: the array (Array Int elemSort) holding zero everywhere. cvc5 only accepts literal
+// values under (as const ...); for zero values that are declared constants (the empty string) a
+// named array with a pattern axiom is used instead.
+func (e *Emitter) constArray(elemSort, zero string) string {
+	if !strings.HasPrefix(zero, "strlit_") {
+		return fmt.Sprintf("((as const (Array Int %s)) %s)", elemSort, zero)
+	}
+	name := "zeroarr_" + sanitize(elemSort)
+	if !e.declared[name] {
+		e.declared[name] = true
+		e.pre = append(e.pre, fmt.Sprintf("(declare-const %s (Array Int %s))", name, elemSort),
+			fmt.Sprintf("(assert (forall ((i Int)) (! (= (select %s i) %s) :pattern ((select %s i)))))", name, zero, name))
 	}
 	return name
 }
